@@ -112,7 +112,7 @@ func (d dirSpec) tokens() []string {
 // ---- operations ----------------------------------------------------------------
 
 type op struct {
-	Kind       string // apply | set | add | del | fix
+	Kind       string // apply | set | add | del | fix | grow
 	N          int
 	Order      string
 	TxMode     string
@@ -150,6 +150,8 @@ func (o op) String() string {
 		return "del " + o.Ver
 	case "fix":
 		return "fix " + o.Ver
+	case "grow":
+		return "grow " + o.Ver
 	}
 	return o.Kind
 }
@@ -493,7 +495,7 @@ func runScenario(sc scenario) (qs []query, recs []stepRec, err error) {
 	}
 	status := func(st dbState) statusObs {
 		so := runStatus(tmp, mdir, db)
-		qs = append(qs, query{append(append(dir.tokens(), st.tokens()...), "S"), so.Text})
+		qs = append(qs, query{append(dir.tokens(), "S"), so.Text})
 		return so
 	}
 	st, err := observe(db)
@@ -527,6 +529,10 @@ func runScenario(sc scenario) (qs []query, recs []stepRec, err error) {
 			if f := dir.find(o.Ver); f != nil {
 				f.Bad = -1
 			}
+		case "grow": // one more statement at the end of the file (a partially applied prefix stays intact)
+			if f := dir.find(o.Ver); f != nil {
+				f.NStmts++
+			}
 		case "apply":
 			ao := runApply(tmp, mdir, db, o)
 			rec.apply = &ao
@@ -534,7 +540,7 @@ func runScenario(sc scenario) (qs []query, recs []stepRec, err error) {
 			so := runSet(tmp, mdir, db, o)
 			rec.set = &so
 		}
-		if o.Kind == "add" || o.Kind == "del" || o.Kind == "fix" {
+		if o.Kind == "add" || o.Kind == "del" || o.Kind == "fix" || o.Kind == "grow" {
 			if err := writeDir(mdir, dir); err != nil {
 				return nil, nil, err
 			}
@@ -559,14 +565,11 @@ func runScenario(sc scenario) (qs []query, recs []stepRec, err error) {
 					}
 				}
 			}
-			qs = append(qs, query{append(append(dir.tokens(), st.tokens()...), "A", o.Order, execrun.Hex(o.Baseline), b2s(o.AllowDirty), fmt.Sprint(o.N)),
-				"plan=" + rec.apply.Plan + " baseline=" + bl})
+			qs = append(qs, query{append(dir.tokens(), "A", o.Order, execrun.Hex(o.Baseline), b2s(o.AllowDirty), fmt.Sprint(o.N), o.TxMode, b2s(o.DryRun)),
+				"plan=" + rec.apply.Plan + " baseline=" + bl + " table=[" + showTable(after.Revs) + "] dirty=" + b2s(after.Dirty)})
 		case "set":
-			text := rec.set.Text
-			if rec.set.OK {
-				text += " table=[" + showTable(after.Revs) + "]"
-			}
-			qs = append(qs, query{append(append(dir.tokens(), st.tokens()...), "T", execrun.Hex(o.Arg)), text})
+			text := rec.set.Text + " table=[" + showTable(after.Revs) + "]"
+			qs = append(qs, query{append(dir.tokens(), "T", execrun.Hex(o.Arg)), text})
 		}
 		st = after
 		rec.status = status(st)
@@ -626,7 +629,7 @@ func main() {
 				w.Violation(sc.id, "harness", err.Error())
 				return
 			}
-			toks := []string{fmt.Sprint(len(qs))}
+			toks := []string{b2s(sc.dirty), fmt.Sprint(len(qs))}
 			var lines []string
 			for i, q := range qs {
 				toks = append(toks, q.toks...)
